@@ -526,7 +526,7 @@ func (cl *cluster) apply(ev string) {
 		cl.nFaults++
 		cl.observe("XferKill armed")
 	case "Ahead":
-		// pre-history (InitOps only): two writes that were in flight reached the real replica of node <i> and nobody else,
+		// pre-history (InitOps only): two writes (Ahead:<i>:1 = one) that were in flight reached the real replica of node <i> and nobody else,
 		// and were never acknowledged: its revision counter is now ahead of the others', its chain has the same names
 		i := atoi(f[1])
 		buf := bytes.Repeat([]byte{0xEE}, Block)
@@ -541,8 +541,10 @@ func (cl *cluster) apply(ev string) {
 				panic(fmt.Sprintf("harness: Ahead:%d: %v", i, err))
 			}
 		}
-		if _, err := srv.WriteAt(buf, 2*Block); err != nil {
-			panic(fmt.Sprintf("harness: Ahead:%d: %v", i, err))
+		if len(f) < 3 || f[2] != "1" { // Ahead:<i>:1 = one write only
+			if _, err := srv.WriteAt(buf, 2*Block); err != nil {
+				panic(fmt.Sprintf("harness: Ahead:%d: %v", i, err))
+			}
 		}
 		if opened {
 			srv.Close()
